@@ -3205,9 +3205,9 @@ class Wallet(object):
             # Remove current UTXO's
             if rescan_all:
                 cur_utxos = self.session.query(DbTransactionOutput). \
-                    join(DbTransaction). \
+                    join(DbTransaction).join(DbKey). \
                     filter(DbTransactionOutput.spent.is_(False),
-                           DbTransaction.account_id == account_id,
+                           DbKey.account_id == account_id,
                            DbTransaction.wallet_id == self.wallet_id,
                            DbTransaction.network_name == network).all()
                 for u in cur_utxos:
@@ -3839,7 +3839,7 @@ class Wallet(object):
             variance = dust_amount
 
         utxo_query = self.session.query(DbTransactionOutput).join(DbTransaction).join(DbKey). \
-            filter(DbTransaction.wallet_id == self.wallet_id, DbTransaction.account_id == account_id,
+            filter(DbTransaction.wallet_id == self.wallet_id, DbKey.account_id == account_id,
                    DbTransaction.network_name == network, DbKey.public != b'',
                    DbTransactionOutput.spent.is_(False), DbTransaction.confirmations >= min_confirms)
         if input_key_id:
